@@ -25,6 +25,8 @@ class LenS(S):
 
 
 def length_of(x):
+    if hasattr(type(x), "__nss_len__"):
+        return x.__nss_len__()  # a contract stub with a symbolic number of rows
     if isinstance(x, sym.Dep):
         return x._generic()
     if isinstance(x, sym.SeqA):
@@ -597,7 +599,7 @@ def build_models(interp):
     reg(min, m_minmax("min"))
     reg(max, m_minmax("max"))
     reg(abs, lambda x: abs(x))
-    reg(len, length_of)
+    reg(len, length_of, always=True)
     reg(print, lambda *a, **k: None, always=True)
 
     def m_zip(*arrs, **k):
